@@ -164,6 +164,17 @@ pub fn check_state(sim: &mut Sim, snap: &VerifSnapshot, m: Mon, ex: &mut Exercis
             if uf.contains(id) && sim.started[j] {
                 v.push(viol("C17", "started-and-uf", format!("{} started and upstream-failed", id)));
             }
+            // the cleanup set agrees with the job's state and with the events delivered so far
+            let rfc = matches!(st(j), JobState::Ephemeral(pypipegraph2::JobStateEphemeral::FinishedSuccessReadyForCleanup));
+            if cleanup.contains(id) != rfc {
+                v.push(viol("C17", "cleanup-set-vs-state", format!("{} cleanup-set {} vs state {:?}", id, cleanup.contains(id), st(j))));
+            }
+            if sim.offered[j] && !sim.acked[j] && !cleanup.contains(id) {
+                v.push(viol("C17", "cleanup-offer-lost", format!("{} was offered for cleanup, no acknowledgement was delivered, but it is no longer in the cleanup set", id)));
+            }
+            if sim.acked[j] && cleanup.contains(id) {
+                v.push(viol("C17", "cleanup-after-ack", format!("{} still in the cleanup set after the acknowledgement", id)));
+            }
             if cleanup.contains(id) && !(g.jobs[j].kind == Kind::E && sim.res[j] == Res::Ok) {
                 v.push(viol("C17", "cleanup-set", format!("{} in cleanup set but not a successfully executed Ephemeral", id)));
             }
